@@ -4,6 +4,7 @@
 #ifndef VERIF_C16_COMMON_HPP
 #define VERIF_C16_COMMON_HPP
 #include "common/vh.hpp"
+#include "common/route.hpp"
 
 #include <fcppt/function_impl.hpp>
 #include <fcppt/int_range_impl.hpp>
@@ -107,6 +108,12 @@
 #include <type_traits>
 #include <utility>
 #include <vector>
+
+// one mismatch collector for all translation units of the harness (the helpers below live in an unnamed namespace)
+namespace c16sm
+{
+inline std::string mismatch{};
+}
 
 namespace
 {
@@ -259,11 +266,48 @@ std::string with_size(std::size_t const n, F const &f)
   return r;
 }
 
+// ---- special-member routing (common/route.hpp, notes/sweep.md): every fcppt::array::object / fcppt::tuple::object the
+// operations are applied to travels through a special member of its class first; the route is a function of the
+// elements.  Mismatches are collected here and appended to the result line by handle().
+
+inline unsigned sm_route(seq const &v, std::size_t const off, std::size_t const n)
+{
+  unsigned h{static_cast<unsigned>(off * 7U + n)};
+  for (std::size_t i{0U}; i < n; ++i)
+    h = h * 31U + static_cast<unsigned>(v[off + i]) + 3U;
+  return h ^ (h >> 7U);
+}
+
+template <typename T, std::size_t N>
+std::string sm_show(fcppt::array::object<T, N> const &a)
+{
+  std::string r{"a"};
+  for (T const &e : a)
+    r += std::to_string(val(e)) + ",";
+  return r;
+}
+
+template <typename... Ts>
+std::string sm_show(fcppt::tuple::object<Ts...> const &t)
+{
+  std::string r{"t"};
+  [&]<std::size_t... I>(std::index_sequence<I...>) { ((r += std::to_string(val(fcppt::tuple::get<I>(t))) + ","), ...); }
+  (std::make_index_sequence<sizeof...(Ts)>{});
+  return r;
+}
+
 template <std::size_t N>
 fcppt::array::object<int, N> mk_array(seq const &v, std::size_t const off)
 {
-  return fcppt::array::init<fcppt::array::object<int, N>>(
-      [&v, off]<std::size_t I>(std::integral_constant<std::size_t, I>) { return v[off + I]; });
+  using type = fcppt::array::object<int, N>;
+  return vh::sm::checked(
+      c16sm::mismatch,
+      "array::object",
+      sm_route(v, off, N),
+      fcppt::array::init<type>([&v, off]<std::size_t I>(std::integral_constant<std::size_t, I>) { return v[off + I]; }),
+      [&v, off]
+      { return fcppt::array::init<type>([&v, off]<std::size_t I>(std::integral_constant<std::size_t, I>) { return v[off + I] + 1 + static_cast<int>(I); }); },
+      [](type const &a) { return sm_show(a); });
 }
 
 template <std::size_t N> struct tuple_of;
@@ -273,12 +317,25 @@ template <> struct tuple_of<2> { using type = fcppt::tuple::object<int, long>; }
 template <> struct tuple_of<3> { using type = fcppt::tuple::object<int, long, short>; };
 
 template <std::size_t N>
-typename tuple_of<N>::type mk_tuple(seq const &v, std::size_t const off)
+typename tuple_of<N>::type mk_tuple_raw(seq const &v, std::size_t const off, int const d)
 {
   if constexpr (N == 0) return fcppt::tuple::object<>{};
-  else if constexpr (N == 1) return fcppt::tuple::object<int>{v[off]};
-  else if constexpr (N == 2) return fcppt::tuple::object<int, long>{v[off], static_cast<long>(v[off + 1])};
-  else return fcppt::tuple::object<int, long, short>{v[off], static_cast<long>(v[off + 1]), static_cast<short>(v[off + 2])};
+  else if constexpr (N == 1) return fcppt::tuple::object<int>{v[off] + d};
+  else if constexpr (N == 2) return fcppt::tuple::object<int, long>{v[off] + d, static_cast<long>(v[off + 1] + 2 * d)};
+  else return fcppt::tuple::object<int, long, short>{v[off] + d, static_cast<long>(v[off + 1] + 2 * d), static_cast<short>(v[off + 2] + 3 * d)};
+}
+
+template <std::size_t N>
+typename tuple_of<N>::type mk_tuple(seq const &v, std::size_t const off)
+{
+  using type = typename tuple_of<N>::type;
+  return vh::sm::checked(
+      c16sm::mismatch,
+      "tuple::object",
+      sm_route(v, off, N),
+      mk_tuple_raw<N>(v, off, 0),
+      [&v, off] { return mk_tuple_raw<N>(v, off, 1); },
+      [](type const &t) { return sm_show(t); });
 }
 
 template <typename... Ts>
@@ -317,12 +374,20 @@ std::string with_mpl(seq const &v, F const &f)
   return with_mpl_rec<F>(v, 0, f);
 }
 
-// arrays and tuples of probe elements
+// arrays and tuples of probe elements (routed like the int ones; the probe elements record moves, so only the routes
+// that leave the elements un-moved-from are compared: the object that comes out is a fresh copy in every route)
 template <std::size_t N>
 fcppt::array::object<pe, N> mk_parray(seq const &v, std::size_t const off)
 {
-  return fcppt::array::init<fcppt::array::object<pe, N>>(
-      [&v, off]<std::size_t I>(std::integral_constant<std::size_t, I>) { return pe{v[off + I]}; });
+  using type = fcppt::array::object<pe, N>;
+  return vh::sm::checked(
+      c16sm::mismatch,
+      "array::object<probe>",
+      sm_route(v, off, N) + 1U,
+      fcppt::array::init<type>([&v, off]<std::size_t I>(std::integral_constant<std::size_t, I>) { return pe{v[off + I]}; }),
+      [&v, off]
+      { return fcppt::array::init<type>([&v, off]<std::size_t I>(std::integral_constant<std::size_t, I>) { return pe{v[off + I] + 1 + static_cast<int>(I)}; }); },
+      [](type const &a) { return sm_show(a); });
 }
 
 template <std::size_t N> struct ptuple_of;
@@ -332,12 +397,25 @@ template <> struct ptuple_of<2> { using type = fcppt::tuple::object<pe, pe>; };
 template <> struct ptuple_of<3> { using type = fcppt::tuple::object<pe, pe, pe>; };
 
 template <std::size_t N>
-typename ptuple_of<N>::type mk_ptuple(seq const &v, std::size_t const off)
+typename ptuple_of<N>::type mk_ptuple_raw(seq const &v, std::size_t const off, int const d)
 {
   if constexpr (N == 0) return fcppt::tuple::object<>{};
-  else if constexpr (N == 1) return fcppt::tuple::object<pe>{pe{v[off]}};
-  else if constexpr (N == 2) return fcppt::tuple::object<pe, pe>{pe{v[off]}, pe{v[off + 1]}};
-  else return fcppt::tuple::object<pe, pe, pe>{pe{v[off]}, pe{v[off + 1]}, pe{v[off + 2]}};
+  else if constexpr (N == 1) return fcppt::tuple::object<pe>{pe{v[off] + d}};
+  else if constexpr (N == 2) return fcppt::tuple::object<pe, pe>{pe{v[off] + d}, pe{v[off + 1] + 2 * d}};
+  else return fcppt::tuple::object<pe, pe, pe>{pe{v[off] + d}, pe{v[off + 1] + 2 * d}, pe{v[off + 2] + 3 * d}};
+}
+
+template <std::size_t N>
+typename ptuple_of<N>::type mk_ptuple(seq const &v, std::size_t const off)
+{
+  using type = typename ptuple_of<N>::type;
+  return vh::sm::checked(
+      c16sm::mismatch,
+      "tuple::object<probe>",
+      sm_route(v, off, N) + 1U,
+      mk_ptuple_raw<N>(v, off, 0),
+      [&v, off] { return mk_ptuple_raw<N>(v, off, 1); },
+      [](type const &t) { return sm_show(t); });
 }
 
 // pass x on as const lvalue (0), lvalue (1) or rvalue (2)
